@@ -95,16 +95,21 @@ def _edge_leaves(cfg, loop, edge):
     return reach is not None and loop.header not in reach
 
 
-def feasible_reach(cfg, edge, avoid=(), stop=()):
-    """blocks reachable from the target of `edge` (never entering `avoid`, not continuing past `stop`) on paths that are feasible
-    w.r.t. the enum variants assigned along the way; None when the walk is too large (callers must then assume everything)"""
-    src, dst = edge
+def feasible_reach(cfg, edge=None, avoid=(), stop=(), start_block=None):
+    """blocks reachable from the target of `edge` (or from the successors of `start_block`), never entering `avoid`, not continuing
+    past `stop`, on paths that are feasible w.r.t. the enum variants assigned along the way; None when the walk is too large
+    (callers must then assume everything)"""
     blocks = cfg.blocks
-    start = _flow_block(blocks, src, {}, only_term=True)
     avoid, stop = set(avoid), set(stop)
     seen = set()
     out = set()
-    stack = [(dst, start)] if dst not in avoid else []
+    if edge is not None:
+        src, dst = edge
+        start = _flow_block(blocks, src, {}, only_term=True)
+        stack = [(dst, start)] if dst not in avoid else []
+    else:
+        st0 = _flow_block(blocks, start_block, {})
+        stack = [(s2, st0) for s2 in _feasible_succ(cfg, blocks, start_block, st0) if s2 not in avoid]
     steps = 0
     while stack:
         n, st = stack.pop()
